@@ -94,7 +94,9 @@ theorem C01_script_size (stack : List Bytes) (script : Bytes) (flags : Nat) (sv 
     by_cases hc : (sv != SigVersion.TAPSCRIPT && decide (script.length > Spec.maxScriptSize)) = true
     · simp at hc; exact ⟨hc.1, hc.2⟩
     · simp only [hc, Bool.false_eq_true, if_false] at h
-      split at h <;> simp at h
+      split at h
+      · simp at h
+      · split at h <;> simp at h
 
 /-- MAIN THEOREM (stepping).  For a session set up on one script (no scriptPubKey successor, no taproot
     commitment phase, not a P2SH hand-over), stepping operation by operation visits exactly the states
@@ -118,6 +120,7 @@ theorem C01_trace (cx : Ctx) (tc : TapCtx) (cfg : Spec.Cfg)
     split at hinit
     · cases hinit
     · cases hinit
+      simp only [List.isEmpty_nil, Bool.not_true, Bool.false_and, Bool.false_eq_true, if_false] at hsetup
       split at hsetup
       · cases hsetup
       · cases hsetup
